@@ -77,6 +77,81 @@ class VFact:
         return False
 
 
+class CFact:
+    """`x == true  =>  f`  for a bool variable x assigned in several places (the lowering of `let x = a && b;`)"""
+    __slots__ = ("x", "f", "deps")
+
+    def __init__(self, x, f):
+        self.x, self.f = x, f
+        self.deps = frozenset(f.deps) | {("L", x)}
+
+    def key(self):
+        return ("CF", self.x, self.f.key())
+
+    def is_const(self):
+        return False
+
+
+class CFalse:
+    """x is false on every path reaching here (so `x == true => anything`)"""
+    __slots__ = ("x", "deps")
+
+    def __init__(self, x):
+        self.x = x
+        self.deps = frozenset({("L", x)})
+
+    def key(self):
+        return ("CFalse", self.x)
+
+    def is_const(self):
+        return False
+
+
+def meet(A, B):
+    out = {}
+    for k, f in A.items():
+        if k in B or (isinstance(f, CFact) and ("CFalse", f.x) in B):
+            out[k] = f
+    for k, f in B.items():
+        if k not in out and isinstance(f, CFact) and ("CFalse", f.x) in A:
+            out[k] = f
+    return out
+
+
+def ext_atom(k):
+    return ("ext", k)
+
+
+def ext_lin(f):
+    """the caller's value, frozen for the duration of the call: atoms renamed, no dependencies"""
+    return Lin(f.c, {ext_atom(k): v for k, v in f.t.items()})
+
+
+def eliminate(facts, allowed, max_atoms=12, max_pairs=400):
+    """Fourier-Motzkin projection of linear facts (each >= 0) onto the atoms accepted by `allowed`"""
+    cur = [f for f in facts if isinstance(f, Lin)]
+    bad = sorted({k for f in cur for k in f.t if not allowed(k)}, key=repr)
+    if len(bad) > max_atoms:
+        return [f for f in cur if all(allowed(k) for k in f.t)]
+    for atom in bad:
+        pos = [f for f in cur if f.t.get(atom, 0) > 0]
+        neg = [f for f in cur if f.t.get(atom, 0) < 0]
+        rest = [f for f in cur if f.t.get(atom, 0) == 0]
+        if len(pos) * len(neg) > max_pairs:
+            cur = rest
+            continue
+        new = {}
+        for f in rest:
+            new[f.key()] = f
+        for a in pos:
+            for b in neg:
+                c = a.scale(-b.t[atom]) + b.scale(a.t[atom])
+                if not c.nonneg():
+                    new[c.key()] = c
+        cur = list(new.values())
+    return [f for f in cur if all(allowed(k) for k in f.t)]
+
+
 # pure accessors: `p.get_public_key()` reads `p.public_key`
 ACCESSORS = {
     "saito_core::core::consensus::peers::peer::Peer::get_public_key": ("saito_core::core::consensus::peers::peer::Peer", "public_key"),
@@ -117,28 +192,103 @@ class DecoderAnalysis:
     def __init__(self, prog):
         self.prog = prog
         self.memo = {}
+        self.memo_stats = {}
+        self._summaries = {}
         self.stack = []
 
-    def analyze(self, body, entry=()):
-        """entry: tuple of (param local, const length).  Returns list of undischarged obligations:
-        dict(body, bb, kind, desc, loc)."""
-        key = (body.path, tuple(entry))
+    def analyze(self, body, entry=(), foreign=()):
+        """entry: tuple of (param local, lo, hi) constant bounds on a buffer parameter's length; foreign: facts of the
+        caller at the call site (atoms renamed `ext`) plus the equalities binding this body's parameters to the caller's
+        argument values.  Returns list of undischarged obligations: dict(body, bb, kind, desc, loc)."""
+        fkey = tuple(sorted(repr(f.key()) for f in foreign))
+        key = (body.path, tuple(entry), fkey)
         if key in self.memo:
             return self.memo[key]
         if body.path in self.stack or len(self.stack) > 6:
             return []
         self.stack.append(body.path)
         self.memo[key] = []
-        out, stats = self._run(body, entry)
+        out, stats = self._run(body, entry, foreign)
         self.memo[key] = out
+        self.memo_stats[key] = stats
         self.stack.pop()
         self.last_stats = stats
         return out
 
     # ------------------------------------------------------------------
-    def _run(self, body, entry):
+    def summary(self, callee):
+        """{tag: [Lin over the callee's parameter atoms]} - facts that hold whenever the callee returns Ok / Some / true.
+        Lets a length test that was moved into a helper (`ensure_len(buf)?`, `if !has_room(buf, i) { return }`) keep
+        discharging the caller's obligations."""
+        if callee.path in self._summaries:
+            return self._summaries[callee.path]
+        self._summaries[callee.path] = {}
+        if callee.path in self.stack or len(self.stack) > 6 or callee.nblocks > 400:
+            return {}
+        ret = callee.ty(0)
+        if not (ret["s"] == "bool" or (ret["k"] == "adt" and ret["d"] in ("std::result::Result", "std::option::Option"))):
+            return {}
+        self.stack.append(callee.path)
+        try:
+            exits = []
+            self._run(callee, (), (), exits=exits)
+        finally:
+            self.stack.pop()
+        argc = callee.argc
+        frozen = {p for p in range(1, argc + 1) if not callee.defs(p) and not callee.partial_defs(p)}
+
+        def allowed(k):
+            if k[0] == "len" and isinstance(k[1], tuple) and k[1][0] == "L":
+                return k[1][1] in frozen
+            return k[0] == "L" and k[1] in frozen
+        out = {}
+        for tag in ("Ok", "Some", "true"):
+            if (tag == "true") != (ret["s"] == "bool") or (tag != "true" and {"Ok": "std::result::Result", "Some": "std::option::Option"}[tag] != ret.get("d")):
+                continue
+            sites = [fs for (tg, fs) in exits if tg in (tag, "any")]
+            if not sites:
+                continue
+            proj = None
+            for fs in sites:
+                keep = {f.key(): f for f in eliminate(fs, allowed) if not f.deps}
+                proj = keep if proj is None else {k: f for k, f in proj.items() if k in keep}
+            if proj:
+                out[tag] = list(proj.values())
+        self._summaries[callee.path] = out
+        return out
+
+    def summary_facts(self, lz, callexpr, tag):
+        """facts of the caller implied by `callexpr` having returned `tag` (parameters replaced by the argument values)"""
+        callee = self.prog.bodies.get(callexpr[1])
+        if callee is None or callee.is_promoted or callee.is_coroutine:
+            return []
+        sm = self.summary(callee).get(tag)
+        if not sm:
+            return []
+        args = callexpr[2]
+        out = []
+        for f in sm:
+            acc = Lin(f.c)
+            ok = True
+            for k, v in f.t.items():
+                p = k[1][1] if k[0] == "len" else k[1]
+                if p - 1 >= len(args):
+                    ok = False
+                    break
+                val = lz.length(args[p - 1]) if k[0] == "len" else lz.lin(args[p - 1])
+                if val is None:
+                    ok = False
+                    break
+                acc = acc + val.scale(v)
+            if ok and not acc.is_const():
+                acc = Lin(acc.c, acc.t, set(acc.deps) | {("C", callexpr[3])})
+                out.append(acc)
+        return out
+
+    # ------------------------------------------------------------------
+    def _run(self, body, entry, foreign=(), exits=None):
         ch = StableChaser(body)
-        lz = Linearizer(body, ch)
+        lz = Linearizer(body, ch, self.prog)
         nb = body.nblocks
         entry_facts = {}
         for (pl, lo, hi) in entry:
@@ -148,8 +298,13 @@ class DecoderAnalysis:
             for f in fs:
                 if not f.is_const():
                     entry_facts[f.key()] = f
+        for f in foreign:
+            if not f.is_const():
+                entry_facts[f.key()] = f
         IN = [None] * nb
         IN[0] = entry_facts
+        flags = {l for l in range(body.argc + 1, len(body.locals)) if body.ty(l)["s"] == "bool" and len(body.defs(l)) > 1
+                 and not body.partial_defs(l)}
         obligations = {}
         order = body.rpo()
         # force chaser to classify every local once (fills ch.unstable)
@@ -164,8 +319,22 @@ class DecoderAnalysis:
                 facts[f.key()] = f
             return facts
 
-        def edge_facts(bb):
-            """{succ: [Lin]} learned on the edges out of bb"""
+        def cmp_facts(e):
+            """(facts when e is true, facts when e is false) for a comparison expression, else None"""
+            op = a = b = None
+            if e[0] == "bin" and e[1] in ("Lt", "Le", "Gt", "Ge", "Eq", "Ne"):
+                op, a, b = e[1], lz.lin(e[2]), lz.lin(e[3])
+            elif e[0] == "call" and e[1] in ("std::cmp::PartialEq::eq", "std::cmp::PartialEq::ne") and len(e[2]) == 2:
+                op, a, b = ("Eq" if e[1].endswith("eq") else "Ne"), lz.lin(e[2][0]), lz.lin(e[2][1])
+            if op is None or a is None or b is None:
+                return None
+            one_ = Lin(1)
+            T = {"Lt": [b - a - one_], "Le": [b - a], "Gt": [a - b - one_], "Ge": [a - b], "Eq": [a - b, b - a], "Ne": []}
+            F = {"Lt": [a - b], "Le": [a - b - one_], "Gt": [b - a], "Ge": [b - a - one_], "Eq": [], "Ne": [a - b, b - a]}
+            return T[op], F[op]
+
+        def edge_facts(bb, facts):
+            """{succ: [facts]} learned on the edges out of bb"""
             t = body.term(bb)
             res = {}
             if t["k"] != "switch":
@@ -183,38 +352,50 @@ class DecoderAnalysis:
                 true_t = one if one else ([other] if zero else [])
                 if neg:
                     false_t, true_t = true_t, false_t
-                op = a = b = None
-                if e[0] == "bin" and e[1] in ("Lt", "Le", "Gt", "Ge", "Eq", "Ne"):
-                    op, a, b = e[1], lz.lin(e[2]), lz.lin(e[3])
-                elif e[0] == "call" and e[1] in ("std::cmp::PartialEq::eq", "std::cmp::PartialEq::ne") and len(e[2]) == 2:
-                    op, a, b = ("Eq" if e[1].endswith("eq") else "Ne"), lz.lin(e[2][0]), lz.lin(e[2][1])
-                elif e[0] == "call" and e[1] in ("std::result::Result::is_err", "std::result::Result::is_ok",
-                                                 "std::option::Option::is_some", "std::option::Option::is_none") and e[2]:
+                if e[0] == "local" and e[1] in flags:
+                    # `let ok = a && b; ... if ok {`: what held where ok was given a value that can be true
+                    for f in facts.values():
+                        if isinstance(f, CFact) and f.x == e[1]:
+                            for tgt in true_t:
+                                res.setdefault(tgt, []).append(f.f)
+                    return res
+                if e[0] == "call" and e[1] in ("std::result::Result::is_err", "std::result::Result::is_ok",
+                                               "std::option::Option::is_some", "std::option::Option::is_none") and e[2]:
                     k, deps = vkey(lz, e[2][0])
                     tv, fv = {"is_err": ("Err", "Ok"), "is_ok": ("Ok", "Err"), "is_some": ("Some", "None"), "is_none": ("None", "Some")}[e[1].rsplit("::", 1)[-1]]
                     for tgt in true_t:
                         res.setdefault(tgt, []).append(VFact(k, tv, deps))
                     for tgt in false_t:
                         res.setdefault(tgt, []).append(VFact(k, fv, deps))
+                    inner = strip(e[2][0])
+                    if inner[0] == "call" and inner[1] in self.prog.bodies:
+                        good_t = true_t if tv in ("Ok", "Some") else false_t
+                        for f in self.summary_facts(lz, inner, tv if tv in ("Ok", "Some") else fv):
+                            for tgt in good_t:
+                                res.setdefault(tgt, []).append(f)
                     return res
-                elif e[0] == "call" and e[1].rsplit("::", 1)[-1] == "is_empty" and e[2]:
+                if e[0] == "call" and e[1].rsplit("::", 1)[-1] == "is_empty" and e[2]:
                     L = lz.length(e[2][0])
                     if L is not None:
                         for tgt in false_t:
                             res.setdefault(tgt, []).append(L - Lin(1))
                     return res
-                if op is None or a is None or b is None:
+                if e[0] == "call" and e[1] in self.prog.bodies:
+                    # a workspace predicate: what its `true` result implies about the arguments
+                    for f in self.summary_facts(lz, e, "true"):
+                        for tgt in true_t:
+                            res.setdefault(tgt, []).append(f)
                     return res
-                one_ = Lin(1)
-                T = {"Lt": [b - a - one_], "Le": [b - a], "Gt": [a - b - one_], "Ge": [a - b], "Eq": [a - b, b - a], "Ne": []}
-                F = {"Lt": [a - b], "Le": [a - b - one_], "Gt": [b - a], "Ge": [b - a - one_], "Eq": [], "Ne": [a - b, b - a]}
+                tf = cmp_facts(e)
+                if tf is None:
+                    return res
                 for tgt in true_t:
-                    res.setdefault(tgt, []).extend(T[op])
+                    res.setdefault(tgt, []).extend(tf[0])
                 for tgt in false_t:
-                    res.setdefault(tgt, []).extend(F[op])
+                    res.setdefault(tgt, []).extend(tf[1])
                 return res
-            # discriminant of Iterator::next on a Range: loop index facts on the Some edge
             if e[0] == "discr":
+                # discriminant of Iterator::next on a Range: loop index facts on the Some edge
                 x = strip(e[1])
                 if x[0] == "call" and x[1] == "std::iter::Iterator::next" and x[2]:
                     it = x[2][0]
@@ -227,7 +408,92 @@ class DecoderAnalysis:
                         if s is not None and en is not None and n is not None:
                             for tgt in some_t:
                                 res.setdefault(tgt, []).extend([en - n - Lin(1), n - s])
+                elif x[0] == "call" and x[1] in self.prog.bodies:
+                    # `helper(..)?` / `match helper(..) { Ok(..) => .. }`: the Ok / Some edge carries the helper's postcondition
+                    callee = self.prog.bodies[x[1]]
+                    rt = callee.ty(0)
+                    tag = {"std::result::Result": "Ok", "std::option::Option": "Some"}.get(rt.get("d")) if rt["k"] == "adt" else None
+                    if tag:
+                        through_try = False
+                        y = e[1]
+                        while y[0] in ("via", "ref", "deref"):
+                            if y[0] == "via" and y[1] == "std::ops::Try::branch":
+                                through_try = True
+                            y = y[2] if y[0] == "via" else y[1]
+                        good_val = 0 if (through_try or tag == "Ok") else 1
+                        listed = {v: tgt for v, tgt in t["targets"]}
+                        if good_val in listed:
+                            good_t = [listed[good_val]]
+                        elif len(listed) == 1:
+                            good_t = [other]
+                        else:
+                            good_t = []
+                        for f in self.summary_facts(lz, x, tag):
+                            for tgt in good_t:
+                                res.setdefault(tgt, []).append(f)
             return res
+
+        def transfer(facts, st, record=None):
+            """facts after one statement"""
+            if st[0] != "=":
+                return facts
+            if st[1][1]:
+                facts = kill(facts, ("L", st[1][0]))
+                vf = variant_of_assignment(body, ch, lz, st)
+                if vf is not None:
+                    facts = {k: f for k, f in facts.items() if not (isinstance(f, VFact) and f.k == vf.k)}
+                    facts[vf.key()] = vf
+                return facts
+            x = st[1][0]
+            facts = kill(facts, ("L", x))
+            if x in flags or (x == 0 and record is not None):
+                e = ch.rvalue(st[2], 0)
+                neg = False
+                while e[0] == "un" and e[1] == "Not":
+                    neg = not neg
+                    e = e[2]
+                plain = [f for f in facts.values() if not isinstance(f, (CFact, CFalse)) and ("L", x) not in f.deps]
+                extra = []
+                is_false = e[0] == "const" and e[1] in (0, False) and not neg or (e[0] == "const" and e[1] in (1, True) and neg)
+                if not is_false:
+                    tf = cmp_facts(e)
+                    if tf is not None:
+                        extra += tf[1] if neg else tf[0]
+                    if e[0] == "local" and e[1] in flags and not neg:
+                        extra += [f.f for f in facts.values() if isinstance(f, CFact) and f.x == e[1]]
+                    if e[0] == "call" and e[1] in self.prog.bodies and not neg:
+                        extra += self.summary_facts(lz, e, "true")
+                if x == 0 and record is not None:
+                    rt = body.ty(0)
+                    if rt["s"] == "bool":
+                        if not is_false:
+                            record.append(("true", plain + extra))
+                    else:
+                        tag = "any"
+                        if e[0] == "agg" and e[1][0] == "adt" and e[1][1] in ("std::option::Option", "std::result::Result"):
+                            tag = e[1][2]
+                        elif e[0] == "const" and "None" in (e[2] or ""):
+                            tag = "None"
+                        elif e[0] == "via" and e[1] == "std::ops::FromResidual::from_residual":
+                            tag = "Err" if rt.get("d") == "std::result::Result" else "None"
+                        record.append((tag, plain))
+                if x in flags:
+                    if is_false:
+                        facts[("CFalse", x)] = CFalse(x)
+                    else:
+                        for f in plain + extra:
+                            if ("L", x) not in f.deps:
+                                cf = CFact(x, f)
+                                facts[cf.key()] = cf
+                return facts
+            if x in ch.unstable or len(body.defs(x)) > 1:
+                # definition facts  x == rvalue  (linear, not mentioning x)
+                v = lz.lin(ch.rvalue(st[2], 0))
+                if v is not None and ("L", x) not in v.deps:
+                    xl = Lin(0, {("L", x, body.name_of(x)): 1}, {("L", x)})
+                    add(facts, xl - v)
+                    add(facts, v - xl)
+            return facts
 
         def check(bb, kind, goals, desc, facts):
             lins = [f for f in facts.values() if isinstance(f, Lin)] + list(lz.intrinsic.values())
@@ -249,23 +515,7 @@ class DecoderAnalysis:
                     continue
                 facts = dict(IN[bb])
                 for st in body.stmts(bb):
-                    if st[0] != "=" or st[1][1]:
-                        if st[0] == "=" and st[1][1]:
-                            facts = kill(facts, ("L", st[1][0]))
-                            vf = variant_of_assignment(body, ch, lz, st)
-                            if vf is not None:
-                                facts = {k: f for k, f in facts.items() if not (isinstance(f, VFact) and f.k == vf.k)}
-                                facts[vf.key()] = vf
-                        continue
-                    x = st[1][0]
-                    facts = kill(facts, ("L", x))
-                    if x in ch.unstable or len(body.defs(x)) > 1:
-                        # definition facts  x == rvalue  (linear, not mentioning x)
-                        v = lz.lin(ch.rvalue(st[2], 0))
-                        if v is not None and ("L", x) not in v.deps:
-                            xl = Lin(0, {("L", x, body.name_of(x)): 1}, {("L", x)})
-                            add(facts, xl - v)
-                            add(facts, v - xl)
+                    facts = transfer(facts, st)
                 t = body.term(bb)
                 if t["k"] == "call":
                     self._call_obligations(body, bb, t, ch, lz, facts, check)
@@ -280,7 +530,9 @@ class DecoderAnalysis:
                         check(bb, "bounds", [g], "index %s < %s" % (show(e[2])[:60], show(e[3])[:40]), facts)
                     else:
                         check(bb, "bounds", [None], "bounds check", facts)
-                ef = edge_facts(bb)
+                if t["k"] == "call" and t["dest"] == [0, []] and exits is not None:
+                    pass
+                ef = edge_facts(bb, facts)
                 for s in body.succ(bb):
                     nf = dict(facts)
                     for f in ef.get(s, []):
@@ -289,8 +541,8 @@ class DecoderAnalysis:
                         IN[s] = nf
                         changed = True
                     else:
-                        inter = {k: f for k, f in IN[s].items() if k in nf}
-                        if len(inter) != len(IN[s]):
+                        inter = meet(IN[s], nf)
+                        if set(inter) != set(IN[s]):
                             IN[s] = inter
                             changed = True
         # final pass results: obligations dict was overwritten at each visit with and-ing; recompute once at fixpoint
@@ -300,19 +552,12 @@ class DecoderAnalysis:
                 continue
             facts = dict(IN[bb])
             for st in body.stmts(bb):
-                if st[0] != "=":
-                    continue
-                x = st[1][0]
-                facts = kill(facts, ("L", x))
-                if not st[1][1] and (x in ch.unstable or len(body.defs(x)) > 1):
-                    v = lz.lin(ch.rvalue(st[2], 0))
-                    if v is not None and ("L", x) not in v.deps:
-                        xl = Lin(0, {("L", x, body.name_of(x)): 1}, {("L", x)})
-                        add(facts, xl - v)
-                        add(facts, v - xl)
+                facts = transfer(facts, st, record=exits)
             t = body.term(bb)
             if t["k"] == "call":
                 self._call_obligations(body, bb, t, ch, lz, facts, check)
+                if exits is not None and t["dest"] == [0, []]:
+                    exits.append(("true" if body.ty(0)["s"] == "bool" else "any", [f for f in facts.values() if isinstance(f, Lin)]))
             elif t["k"] == "assert" and t["msg"].startswith("BoundsCheck"):
                 e = ch.origin(t["cond"])
                 if e[0] == "bin" and e[1] == "Lt":
@@ -341,6 +586,9 @@ class DecoderAnalysis:
             base, idx = ch.origin(t["args"][0]), ch.origin(t["args"][1])
             idx = self._expand_here(body, ch, idx, bb)
             L = lz.length(base)
+            n_self = array_len(body, body.tyix(t["cargs"][0])) if t.get("cargs") else None
+            if n_self is not None:
+                L = Lin(n_self)      # indexing a [T; N]: the length is the type's
             r = range_of(idx)
             if r is None or L is None:
                 check(bb, "slice", [None], "%s[%s]" % (show(base)[:40], show(idx)[:80]), facts)
@@ -454,7 +702,39 @@ class DecoderAnalysis:
                         ctx.append((i + 1, lo, None))
         if not follows:
             return
-        sub = self.analyze(callee, tuple(ctx))
+        # the caller's facts at the call site travel with the call: a length test made before handing `bytes, start, count`
+        # to a helper discharges the helper's slicing.  Caller atoms are renamed (`ext`) and frozen; each callee parameter that
+        # the callee never re-assigns is bound to the argument's value / length
+        foreign = []
+        binds = []
+        for i, a in enumerate(t["args"]):
+            p = i + 1
+            if p > callee.argc or callee.defs(p) or callee.partial_defs(p):
+                continue
+            pty = callee.ty(p)
+            nm = callee.name_of(p)
+            ae = ch.origin(a)
+            base_ty = pty
+            while base_ty["k"] in ("ref", "refmut"):
+                base_ty = callee.tyix(base_ty["i"])
+            if pty["k"] == "refmut" and base_ty["k"] != "slice":
+                continue        # a `&mut Vec` may change length inside the callee
+            if base_ty["k"] in ("uint", "int") or base_ty["s"] in ("usize", "u64", "u32", "u16", "u8"):
+                v = lz.lin(ae)
+                if v is not None:
+                    binds.append((Lin(0, {("L", p, nm): 1}), v))
+            elif base_ty["k"] in ("slice", "str") or base_ty["s"].startswith(("std::vec::Vec<", "std::string::String", "[")):
+                L = lz.length(ae)
+                if L is not None and array_len(callee, pty) is None:
+                    binds.append((Lin(0, {("len", ("L", p, nm)): 1}), L))
+        if binds:
+            for pl, v in binds:
+                ve = ext_lin(v)
+                foreign += [pl - ve, ve - pl]
+            for f in list(facts.values()) + list(lz.intrinsic.values()):
+                if isinstance(f, Lin):
+                    foreign.append(ext_lin(f))
+        sub = self.analyze(callee, tuple(ctx), tuple(foreign))
         for o in sub:
             self.via.setdefault((o["body"], o["bb"], o["kind"], o["desc"]), o)["callers"] = \
                 self.via.get((o["body"], o["bb"], o["kind"], o["desc"]), o).get("callers", []) + [body.loc(bb)]
@@ -522,10 +802,9 @@ def run(prog, tier, extra=None):
         undis.setdefault(k, o)
     # count obligations over every (body, context) analysed
     per_body = {}
-    for (path, ctx), out in da.memo.items():
+    for (path, ctx, fkey), out in da.memo.items():
         b = prog.body(path)
-        # re-run cheaply for stats
-        o2, st = da._run(b, ctx)
+        st = da.memo_stats.get((path, ctx, fkey)) or {"obligations": 0, "discharged": 0}
         total_obl += st["obligations"]
         total_ok += st["discharged"]
         per_body.setdefault(path, []).append({"context": list(ctx), "obligations": st["obligations"], "discharged": st["discharged"]})
